@@ -178,7 +178,7 @@ func runPlug(rec *Rec, sc *PlugScenario, n int) {
 	// the server's post-write hooks run after the caller has its reply: a graceful close of both peers waits
 	// for every running handler context, so everything the exchange causes is recorded when it returns
 	cd := make(chan struct{})
-	go func() { cli.Close(); srv.Close(); close(cd) }()
+	go func() { srv.Close(); cli.Close(); close(cd) }() // the server first: its sessions are still indexed, so Close waits for their handlers
 	select {
 	case <-cd:
 	case <-time.After(2 * time.Second):
